@@ -114,10 +114,25 @@ func mapLookupOf(v ssa.Value) (*ssa.Lookup, int) {
 // paramIndex returns the index of v among f's parameters, or -1. For a
 // closure free variables are not parameters.
 func paramIndex(f *ssa.Function, v ssa.Value) int {
-	for i, p := range f.Params {
-		if ssa.Value(p) == strip(v) {
-			return i
+	// v is parameter i of f, directly or as the argument a single-caller
+	// helper's parameter stands for (see paramAlias)
+	cur := v
+	for n := 0; n < 64; n++ {
+		cur = stripLocal(cur)
+		for i, p := range f.Params {
+			if ssa.Value(p) == cur {
+				return i
+			}
 		}
+		pp, ok := cur.(*ssa.Parameter)
+		if !ok {
+			return -1
+		}
+		a, ok := paramAlias[pp]
+		if !ok {
+			return -1
+		}
+		cur = a
 	}
 	return -1
 }
